@@ -38,12 +38,12 @@ def add(pid, verus, prefixes, only=None, **kw):
     P[pid] = dict(level="proof", verus=verus, kani=q, kani_thorough=t, **kw)
 
 TB = ["Verus environment assumptions (std::io Write/Read, byteorder, vstd utf8): verus/env/*.vrs", "Kani stubs: RandomState::new, alloc::fmt::format"]
-add("C01", ["v_codec"], ["leaf_", "fam_rt_", "file_"],
-    level_text="Round trip proved (a) by Verus for the real primitive readers/writers and the generic container codecs (Option, Result, Box, tuples, String, (), regular_deserialize_vec) as lemma_roundtrip over their contracts, for all values and all nestings; (b) by loop-free Kani harnesses on the compiled crates for every leaf type and every member of the derive family (all values), and for the schema-less container. Bounded: Vec<T> bodies (length 2), definitions (finite family).",
+add("C01", ["v_codec", "v_codec_ptr"], ["leaf_", "fam_rt_", "file_"],
+    level_text="Round trip proved (a) by Verus for the real primitive readers/writers and the generic container codecs (Option, Result, Box, Rc, Arc, tuples, String, (), regular_deserialize_vec) as lemma_roundtrip over their contracts, for all values and all nestings; (b) by loop-free Kani harnesses on the compiled crates for every leaf type and every member of the derive family (all values), and for the schema-less container. Bounded: Vec<T> bodies (length 2), definitions (finite family).",
     level_note="Compressed and encrypted containers are outside both verifiers (bzip2 is C code; ring is assembly): only bounded native runs cover them. Trusted: Verus I/O environment, extraction rules, Kani/CBMC, two Kani stubs.",
     technique="Verus function contracts + round-trip lemmas on extracted code; Kani assume/assert contracts on monomorphic wrappers",
     assumptions=["compressed (bzip2) and encrypted (ring) containers: no proof, bounded native runs only", "derive macro generators verified only through their output on the generated family"], trusted_base=TB)
-add("C02", ["v_codec"], ["leaf_", "fam_rt_", "file_SPlain", "file_EData", "fam_older_"],
+add("C02", ["v_codec", "v_codec_ptr"], ["leaf_", "fam_rt_", "file_SPlain", "file_EData", "fam_older_"],
     level_text="Every write_*/serialize function under contract is proved to append exactly the documented encoding (absolute bytes from an independent specification / reference encoder): Verus for primitives and generic containers (all values, unbounded), Kani per leaf and per derive-family member incl. header layout.",
     level_note="Reference encoder and enc spec functions are the oracle (written from the format documentation). Definitions: finite family.",
     technique="Verus postconditions `out == old ++ enc(v)`; Kani harnesses against an independent reference encoder", trusted_base=TB)
